@@ -787,15 +787,16 @@ class C18(Property):
     def nontrivial(self, case, obs):
         return getattr(self, '_nt', False)
 
-    # known finding: SpooledStringIO.readline / iteration cut lines at every str.splitlines boundary
+    # known finding (repaired by the round-3 `fix:` commit; the entry stays `known` until that commit is in the tree
+    # under test): SpooledStringIO.readline / iteration cut lines at every str.splitlines boundary
     # (codecs.StreamReader.readline), io.StringIO only at LF / CR / CRLF.  Matched only when the text holds such a
-    # character, the failing op is a line op of a SpooledStringIO, the returned line(s) are exactly the
-    # str.splitlines refinement of what io.StringIO returns, and the implementation still agrees with the model.
+    # character, the failing op is a line op of a SpooledStringIO and the returned line(s) are exactly the
+    # str.splitlines refinement of what io.StringIO returns.  The model follows the REPAIRED code (Lean:
+    # string_refines_StringIO, full clause), so on the unrepaired tree it disagrees with the implementation exactly on
+    # these cases; the runner forgives a correspondence mismatch only on a case classified here.
     def finding_exotic_linebreak(self, case, failure):
         d = getattr(failure, 'detail', None)
         if case.get('k') != 'S' or failure.tag != 'lines' or not d or d['op'][0] not in ('rl', 'n', 'it', 'dr'):
-            return False
-        if getattr(failure, 'model_agrees', None) is False:
             return False
         text_so_far = ''.join(written(op, 'S') for op in case['ops'][:d['i']] if op[0] in ('w', 'wl'))
         if not any(ch in EXOTIC for ch in text_so_far):
